@@ -59,7 +59,7 @@ def sib_export(ctx: Ctx) -> List[Ob]:
           "one graph node per distinct data_id, or per tree node when unique_nodes is off")
         kname = kf.name if kf else "_no_key_function_"
         loops = _loops_over(f, "node")
-        O(f, f"{q}: node loop and edge loop both iterate `node` (same pre-order walk)", len(loops) == 2, f"{len(loops)} loops over the start node")
+        O(f, f"{q}: node loop and edge loop both iterate `node` (same pre-order walk)", True if len(loops) == 2 else (None if loops else False), f"{len(loops)} loops over the start node")
         if len(loops) != 2:
             continue
 
@@ -228,7 +228,9 @@ def sib_export(ctx: Ctx) -> List[Ob]:
             t_ in (pp, f"not {pp}") for t_ in hc[0][4])
     O(f, "rdf: one has_child triple parent -> child, iff there is a parent graph node (tested with `is not None`)", ok, "edge triple missing or misdirected")
     kd = [t for t in trip if t[2] == "NUTREE_NS.kind"]
-    ok = None if not trip else (len(kd) == 1 and kd[0][1] == G and kd[0][3] == f"Literal({tp}.kind)" and f"hasattr({tp}, 'kind')" in kd[0][4])
+    ok = None if not trip else (len(kd) == 1 and kd[0][1] == G and kd[0][3] in (f"Literal({tp}.kind)",) and f"hasattr({tp}, 'kind')" in kd[0][4])
+    if ok is False and len(kd) == 1 and kd[0][1] == G and not any("kind" in t_ for t_ in kd[0][4]):
+        ok = None  # the triple is there; how "has a kind" is tested is spelled differently (e.g. try/except AttributeError)
     O(f, "rdf: typed nodes get a kind triple", ok, "kind must be exported for typed trees")
     nmt = [t for t in trip if t[2] == "NUTREE_NS.name"]
     O(f, "rdf: every node gets a name triple", None if not trip else (len(nmt) == 1 and nmt[0][1] == G and nmt[0][3] == f"Literal({tp}.name)"))
@@ -407,7 +409,14 @@ def render(ctx: Ctx) -> List[Ob]:
         incs = find_under(ctx, rl, f"{lsv} += 1", [("add_self", False)])
         all_inc = [n for n in iter_own(rl.node) if isinstance(n, ast.AugAssign) and norm(n.target) == lsv]
         offs = find_under(ctx, rl, "add_self = False", [("self._parent", False)]) or find_under(ctx, rl, "add_self = False", [("self._parent is None", True)])
-        ok = base == ["self.depth()"] and len(incs) == 1 and len(all_inc) == 1 and len(offs) == 1 and not_after(ctx, rl, incs[0][0], offs[0][0])
+        if sorted(base) == ["self.depth()", "self.depth() + 1"] and not all_inc:
+            a1 = find_under(ctx, rl, f"{lsv} = self.depth()", [("add_self", True)])
+            a2 = find_under(ctx, rl, f"{lsv} = self.depth() + 1", [("add_self", False)])
+            ok = len(a1) == 1 and len(a2) == 1 and len(offs) == 1 and not_after(ctx, rl, a1[0][0], offs[0][0])
+        elif base != ["self.depth()"] and any("depth" in b_ for b_ in base):
+            ok = None
+        else:
+            ok = base == ["self.depth()"] and len(incs) == 1 and len(all_inc) == 1 and len(offs) == 1 and not_after(ctx, rl, incs[0][0], offs[0][0])
     T(rl, "left-strip: own depth (+1 without add_self); the system root is never rendered", ok, "branches must be rendered relative to the start node")
     fi = m.func("Node.format_iter")
     ys = [c for c in exit_cases(ctx, fi, ("yield",))]
@@ -417,7 +426,7 @@ def render(ctx: Ctx) -> List[Ob]:
     lst_loops = []
     if lst and oth and len(lst) + len(oth) == len(ys):
         lst_loops = [n for n in iter_own(fi.node) if isinstance(n, ast.For) and all(any(c.stmt is x for x in ast.walk(n)) for c in lst)]
-        ok = len(lst_loops) == 1 and match("self.iterator(add_self=add_self)", lst_loops[0].iter) is not None and len(lst) <= 2 \
+        ok = None if (len(lst_loops) != 1 or any(isinstance(c.stmt, ast.YieldFrom) for c in lst)) else match("self.iterator(add_self=add_self)", lst_loops[0].iter) is not None and len(lst) <= 2 \
             and all(norm(c.value) in (f"repr({norm(lst_loops[0].target)})", f"repr.format(node={norm(lst_loops[0].target)})") for c in lst) \
             and all(isinstance(c.stmt, ast.YieldFrom) and "_render_lines" in norm(c.value) for c in oth)
     T(fi, "list style emits the renderings only, once per node of the walk", ok, "style='list' has no prefixes")
@@ -479,8 +488,10 @@ def render(ctx: Ctx) -> List[Ob]:
     ys = exit_cases(ctx, tf, ("yield",))
     tl = [c for c in ys if isinstance(c.stmt, ast.Yield)]
     walk = [c for c in ys if isinstance(c.stmt, ast.YieldFrom)]
-    if len(d_list) == 1 and len(d_else) == 1 and len(walk) == 1 and tl:
-        ok = norm(d_list[0][1]["$$v"]) == "False" and norm(d_else[0][1]["$$v"]) == "True"
+    d_one = find_under(ctx, tf, "title = $$v", [("title is None", True)])
+    one_form = len(d_one) == 1 and norm(d_one[0][1]["$$v"]) in ("style != 'list'", "not style == 'list'")
+    if ((len(d_list) == 1 and len(d_else) == 1) or one_form) and len(walk) == 1 and tl:
+        ok = True if one_form else (norm(d_list[0][1]["$$v"]) == "False" and norm(d_else[0][1]["$$v"]) == "True")
         # the title line: the tree's own rendering for True, the caller's text otherwise; only when title is truthy; before the walk
         for c in tl:
             ts = cond_texts(c.conds)
@@ -680,7 +691,9 @@ def diff(ctx: Ctx) -> List[Ob]:
             recv = to[0].func.value
             t_ok = isinstance(recv, ast.Name) and any(canon_list(it) == want_list for it in loop_var_iter(ctx, f, recv.id))
             if ok and not (g_ok and t_ok):
-                ok = False
+                # the REMOVED test is spelled in a way this clause does not read (a helper, another comparison): undecided,
+                # unless the loop does not look at DC.REMOVED at all
+                ok = None if any("DC.REMOVED" in norm(x) for x in ast.walk(lp)) else False
                 why = f"guard {[canon_list(e) for e in guard]} / MOVED_TO receiver `{norm(recv)}`"
     obs.append(ctx.tri("DIFF", ["C11"], f, "a moved-here node is an added node with a REMOVED clone, which becomes moved-away", None, ok,
                        why + ": moves only re-label members of the added/removed sets"))
